@@ -23,9 +23,12 @@ import (
 	"time"
 
 	"github.com/spf13/afero"
+	"github.com/yandex/pandora/cli"
 	"github.com/yandex/pandora/core"
 	"github.com/yandex/pandora/core/aggregator/netsample"
 	"github.com/yandex/pandora/core/config"
+	"github.com/yandex/pandora/core/engine"
+	"github.com/yandex/pandora/lib/monitoring"
 	"go.uber.org/zap"
 
 	"verifharness/internal/targets"
@@ -160,7 +163,12 @@ func samplepoolMain(args []string) {
 	nInst := fl.Int("n", 1, "instances shooting concurrently")
 	perRun := fl.Int("per-run", 20, "plans per phout aggregator")
 	repeat := fl.Int("repeat", 1, "play the plan list that many times")
+	mode := fl.String("mode", "plans", "plans | engine (a whole pool run by the real engine from a YAML config, discard_overflow at work)")
 	_ = fl.Parse(args)
+	if *mode == "engine" {
+		spEngineMain(*outPath)
+		return
+	}
 	if *procs > 0 {
 		runtime.GOMAXPROCS(*procs)
 	}
@@ -225,6 +233,87 @@ func samplepoolMain(args []string) {
 		run++
 		spRun(w, fs, zl, rec, shared, insts, plans[lo:hi], run, *procs)
 	}
+}
+
+// spEngineMain: the REAL engine runs a pool read from a YAML config the way the CLI reads it (discard_overflow is on by
+// default): one instance, real uri provider, real http gun, real phout aggregator.  The first request is answered only
+// after 2.3 s, so the tokens of the schedule that fell due in the meantime are more than 2 s overdue when the instance
+// comes back - the engine DISCARDS those shots (a `discarded` sample each, which the aggregator writes and puts into the
+// sample pool) - and the following tokens are fired normally, with samples taken from that pool.  Only the phout file is
+// recorded: every line, in file order.
+func spEngineMain(outPath string) {
+	w := vt.Create(outPath)
+	defer w.Close()
+	fs := hwImport()
+	rec := &targets.Recorder{}
+	tgt := targets.NewHTTP("target", false, rec)
+	defer tgt.Close()
+	dir, err := os.MkdirTemp("", "verif-sp-engine-")
+	if err != nil {
+		panic(err)
+	}
+	defer os.RemoveAll(dir)
+	const burst, rate, secs = 12, 20, 3
+	var ammo strings.Builder
+	ammo.WriteString("/__beh/sleepms/2300/slow\n")
+	for k := 0; k < 200; k++ {
+		fmt.Fprintf(&ammo, "/fast/%d\n", k)
+	}
+	if err := afero.WriteFile(fs, "/sp/engine.ammo", []byte(ammo.String()), 0o644); err != nil {
+		panic(err)
+	}
+	dest := "/sp/engine_phout.log"
+	yaml := fmt.Sprintf(`pools:
+  - id: pool
+    gun:
+      type: http
+      target: %s
+      dial: {timeout: 120s}
+    ammo:
+      type: uri
+      file: /sp/engine.ammo
+    result:
+      type: phout
+      destination: %s
+      id: true
+    rps:
+      - {type: once, times: %d}
+      - {type: const, ops: %d, duration: %ds}
+    startup:
+      type: once
+      times: 1
+log:
+  level: error
+`, tgt.Addr(), dest, burst, rate, secs)
+	cfgFile := dir + "/load.yaml"
+	if err := os.WriteFile(cfgFile, []byte(yaml), 0o644); err != nil {
+		panic(err)
+	}
+	conf := cli.VerifReadConfig([]string{cfgFile})
+	zap.ReplaceGlobals(zap.NewNop())
+	m := engine.Metrics{Request: &monitoring.Counter{}, Response: &monitoring.Counter{}, InstanceStart: &monitoring.Counter{}, InstanceFinish: &monitoring.Counter{}}
+	eng := engine.New(zap.NewNop(), m, conf.Engine)
+	ctx, cancel := context.WithTimeout(context.Background(), 120*time.Second)
+	defer cancel()
+	if err := eng.Run(ctx); err != nil {
+		panic(fmt.Sprintf("engine run: %v", err))
+	}
+	eng.Wait()
+	tokens := burst + rate*secs
+	w.Emit(spEv{Ev: "Reset", Run: 1, N: 1, Agg: "phout engine discard_overflow=" + fmt.Sprint(conf.Engine.Pools[0].DiscardOverflow)})
+	b, err := afero.ReadFile(fs, dest)
+	if err != nil {
+		panic(err)
+	}
+	n := 0
+	for _, ln := range strings.Split(string(b), "\n") {
+		if ln == "" {
+			continue
+		}
+		n++
+		w.Emit(spEv{Ev: "ELine", Run: 1, J: n, S: spParse(ln), Raw: ln})
+	}
+	w.Emit(spEv{Ev: "EEnd", Run: 1, Reports: tokens, Lines: n})
 }
 
 // spRun: one phout aggregator (own output file), the instances share out the plans and shoot concurrently.
